@@ -231,11 +231,15 @@ class ParseMCNPCell:
             elt = kw_list.pop()
             if elt.startswith('imp'):
                 importance = float(kw_list.pop())
-                if 'importance' in keywords:
-                    keywords['importance'] = max(importance,
-                                                 keywords['importance'])
-                else:
-                    keywords['importance'] = importance
+                # the importance of the cell is the maximum over the particle
+                # types; a later value for the same particle type (LIKE n BUT)
+                # replaces the earlier one
+                if keywords['imp_by_particle'] is None:
+                    keywords['imp_by_particle'] = {}
+                for particle in elt.partition(':')[2].split(','):
+                    keywords['imp_by_particle'][particle] = importance
+                keywords['importance'] = max(
+                    keywords['imp_by_particle'].values())
             elif 'fill' in elt:
                 f_bounds, f_univs, f_params = self.parse_fill_kw(elt, kw_list)
                 keywords['f_bounds'] = f_bounds
